@@ -126,6 +126,20 @@ def obligations(tier, seed):
         obs.append(Ob(id='C15.cmath2.%s.f64' % fn, prop='C15', group='C15.cmath2', prelude=PRE, wrappers=[w, wa, wb], inputs=[('double', 'a'), ('double', 'b')], body=body, fp=True,
                       abstract=(APPLY_FP,), contract='au::%s(feet(a), inches(b)).in(common unit): std::%s is called exactly once on both operands expressed in the common unit (bit for bit) '
                                                      'and its value is the result in that unit (libm function trusted)' % (fn, fn), functions_under_contract=('au::%s' % fn,)))
+    # integral operands: both are converted to the common unit in the type std::fmod works in (double), NOT in their own rep
+    wfi = Wrapper('w_fmod_u32', 'double', [('uint32_t', 'a'), ('uint32_t', 'b')], 'return au::fmod(au::make_quantity<au::Feet>(a), au::make_quantity<au::Inches>(b)).in(au::CommonUnitT<au::Feet, au::Inches>{});')
+    wri = Wrapper('w_remainder_i32', 'double', [('int32_t', 'a'), ('int32_t', 'b')], 'return au::remainder(au::make_quantity<au::Feet>(a), au::make_quantity<au::Inches>(b)).in(au::CommonUnitT<au::Feet, au::Inches>{});')
+    for (w, stub, cta, nm) in ((wfi, 'll2c_stub_fmod', 'uint32_t', 'fmod.u32'), (wri, 'll2c_stub_remainder', 'int32_t', 'remainder.i32')):
+        body = '''
+  double r = %s(a, b);
+  CHECK(%s_calls == 1, "std-function-called-exactly-once");
+  CHECK(%s_arg0 == (double)a * 12.0, "first-operand-scaled-in-double-not-in-its-own-rep");
+  CHECK(%s_arg1 == (double)b, "second-operand-in-double");
+  CHECK(vf_f64_bits(r) == vf_f64_bits(%s_ret), "result-is-its-value-in-the-common-unit");
+''' % (w.name, stub, stub, stub, stub)
+        obs.append(Ob(id='C15.cmath2.%s' % nm, prop='C15', group='C15.cmath2i', prelude=PRE, wrappers=[w], inputs=[(cta, 'a'), (cta, 'b')], body=body, fp=True,
+                      contract='%s(feet(a), inches(b)) with 32-bit integral reps, all values: std function called once on (double)a*12 and (double)b (exact in double: the operands '
+                               'are converted in the floating type, so nothing wraps in the 32-bit rep)' % nm, functions_under_contract=('au::' + nm.split('.')[0],)))
     # isnan / copysign
     wn = Wrapper('w_isnan_f64', 'bool', [('double', 'a')], 'return au::isnan(au::make_quantity<au::Feet>(a));')
     wnp = Wrapper('w_isnan_pt_f32', 'bool', [('float', 'c')], 'return au::isnan(au::make_quantity_point<au::Feet>(c));')
